@@ -248,6 +248,7 @@ theorem step_Inv (st : State) (op : Op) (h : st.src.Inv) : (step st op).1.src.In
   | importA ids =>
     simp only [step]; split <;> exact h
   | dump => exact h
+  | bigcase n imp => simp only [step]; split <;> exact h
 
 /-! ### the flushed shard -/
 
